@@ -6,6 +6,8 @@ spec/Trace_Lattice.tla  whole analyses: every insert obeys the recurrence, node 
                         best path is a tiling with recomputed cumulative costs and the lattice minimum
 spec/Analysis.tla       what the candidate words ARE: the lattice-building loop as the composition of index, word-start table and lattice;
                         MC_Analysis: processing reachable positions only loses no segmentation (Complete, VisitedReachable)
+spec/UserCost.tla       costs declared -32768: clamp(total(last) - total(first) - 20 * #morphemes) of an analysis of the word against the dictionary
+                        as loaded so far; Trace_UserCost over the loader's own hook events, and those analyses as ordinary runs of Trace_Lattice
 spec/Trace_Analysis.tla the same recorded analyses: positions visited = the reachable ones, dictionary candidates inserted at a position =
                         exactly the lexicon's prefix matches with a permitted end (computed by TLC from the CSV keys), each once, before any OOV provider
 """
@@ -121,6 +123,85 @@ def analysis_pass(out, tier, raw):
     return rej
 
 
+def usercost_pass(out, tier):
+    """UserCost.tla: costs declared -32768 are computed by the loader from an analysis of the word against the dictionary so far"""
+    raw = os.path.join(C.WORK, "traces", f"c02_uc_raw_{tier}.ndjson")
+    p = C.run_vh(["c02-usercost", raw, "--seed", C.seed(), "--worlds", 60 if tier == "quick" else 1500])
+    info = json.loads(p.stdout.strip().splitlines()[-1])
+    uc, lat = [], []
+    world, evs_of = None, {}
+    groups = []
+    for e in C.read_ndjson(raw):
+        if e["ev"] == "world":
+            world = e
+            groups.append((e, []))
+        else:
+            groups[-1][1].append(e)
+    rid = 0
+    for w, evs in groups:
+        if not any(e["ev"] == "load" and e["res"] == "ok" for e in evs):
+            continue
+        g = w["run"]
+        uc.append({"ev": "reset", "run": g})
+        for ui, rows in enumerate(w["users"]):
+            for wi, r in enumerate(rows):
+                uc.append({"ev": "declare", "run": g, "dic": ui + 1, "word": wi, "key": r["key"], "cost": r["cost"]})
+        finals = {(e["dic"], e["word"]): e for e in evs if e["ev"] == "final"}
+        appended, cur = 0, []
+        for e in evs:
+            if e["ev"] == "start_build":
+                cur = [e]
+            elif e["ev"] in ("lat_reset", "pos_begin", "lat_ins", "lat_eos", "pos_done", "oov_call"):
+                cur.append(e)
+            elif e["ev"] == "path":
+                cur.append(e)
+                if e["stage"] == "split":
+                    text = [c for n in e["nodes"] for c in n["surface"]]
+                    uc.append({"ev": "inner", "run": g, "text": text, "totals": [n["total"] for n in e["nodes"]]})
+                    # the same analysis as an ordinary run against the dictionary as loaded so far
+                    rid += 1
+                    users = w["users"][:appended]
+                    lex = list(w["lex"]) + [[[finals[(ui + 1, wi)]["lid"], finals[(ui + 1, wi)]["rid"], finals[(ui + 1, wi)]["cost"]] for wi in range(len(rows))] for ui, rows in enumerate(users)]
+                    lat.append({"ev": "world", "run": rid, "name": w["name"], "conn": w["conn"], "lex": lex})
+                    lat.append({"ev": "run", "run": rid, "world": w["name"], "mode": 2, "meta": {"n_path_rewrite": 0}, "text": text})
+                    for x in cur:
+                        if x["ev"] in ("lat_reset", "pos_begin", "lat_ins", "lat_eos") or (x["ev"] == "path" and x["stage"] == "best"):
+                            y = dict(x, run=rid)
+                            y.pop("wid", None)
+                            if y["ev"] == "path":
+                                y["nodes"] = [{k: m[k] for k in ("b", "e", "lid", "rid", "cost", "dic", "word", "total")} for m in y["nodes"]]
+                            lat.append(y)
+            elif e["ev"] == "dict_write" and e["detail"]["what"] == "set_cost":
+                uc.append({"ev": "set_cost", "run": g, "dic": appended + 1, "word": e["detail"]["word"], "cost": e["detail"]["cost"]})
+            elif e["ev"] == "dict_write" and e["detail"]["what"] == "lexicon_append":
+                appended += 1
+            elif e["ev"] == "final":
+                uc.append({"ev": "final", "run": g, "dic": e["dic"], "word": e["word"], "cost": e["cost"]})
+    tp = os.path.join(C.WORK, "traces", f"c02_uc_{tier}.ndjson")
+    C.write_ndjson(tp, uc)
+    events, rej = C.validate_trace(out, "Trace_UserCost", "Trace_UserCost.cfg", tp, "C02/user-costs")
+    tp2 = os.path.join(C.WORK, "traces", f"c02_ucl_{tier}.ndjson")
+    C.write_ndjson(tp2, lat)
+    ev2, rej2 = C.validate_trace(out, "Trace_Lattice", "Trace_Lattice.cfg", tp2, "C02/loader-analyses")
+    n = sum(1 for e in events if e["ev"] == "set_cost")
+    if n == 0 or not any(e["ev"] == "inner" and len(e["totals"]) > 1 for e in events):
+        raise C.ToolError("vacuous: no cost was computed at load time, or never from an analysis with more than one morpheme")
+    out.cov["user_costs_computed"] = n
+    out.cov["loader_analyses_validated"] = sum(1 for e in ev2 if e["ev"] == "run")
+    out.cov["evaluations"] += n
+    if rej == 0:
+        k = next(i for i, e in enumerate(events) if e["ev"] == "set_cost")
+        e2 = json.loads(json.dumps(events[:k + 1]))
+        e2[k]["cost"] += 1
+        pp = os.path.join(C.WORK, "traces", "c02_probe_uc.ndjson")
+        C.write_ndjson(pp, e2)
+        m2, t2, _ = C.tlc_trace("Trace_UserCost", "Trace_UserCost.cfg", pp)
+        if m2 != k:
+            raise C.ToolError("corruption probe: an altered computed cost was not rejected")
+        out.cov["corruption_probe_usercost"] = "a computed user-word cost altered by 1: rejected at that event"
+    return rej + rej2
+
+
 def run(tier, replay=None):
     if replay:
         C.build_harness()
@@ -173,6 +254,7 @@ def run(tier, replay=None):
     project(raw, tp)
     events, rej = C.validate_trace(out, "Trace_Lattice", "Trace_Lattice.cfg", tp, "C02")
     rej += analysis_pass(out, tier, raw)
+    rej += usercost_pass(out, tier)
     out.cov["traces_validated_against_impl"] += info["runs"]
     out.cov["evaluations"] += info["runs"]
     out.cov["generated_dictionaries"] = info["worlds"]
